@@ -1289,6 +1289,18 @@ def lexers_check(fns, table):
                 report(f, ('starts-with-a-letter-or-underscore-and-continues-with-the-full-class', 'the identifier is lexed as %s then %s instead of AZ_ then %s' % (cls(st[0]), cls(st[1][2][0]), second)), props=props_)
         else:
             undecided.append('%s: not of the form is_a(CLASS) opt(is_a(CLASS))' % iname)
+    # ---- the `_exact` variants take NO white space after the token (the name of a `define: what follows it is the macro text)
+    for n_, f in sorted(table.items()):
+        if not n_.endswith('_exact') or not f.ast:
+            continue
+        checked += 1
+        names = called_names(f.ast)
+        wrong = sorted(c for c in names if not c.endswith('_exact') and (c + '_exact') in table)
+        if 'ws' in names or wrong:
+            report(f, ('takes-no-white-space-after-the-token', '%s is built from %s: the white space (inside a directive: the line end too) after the token becomes part of it' % (
+                n_, ', '.join((['ws(..)'] if 'ws' in names else []) + wrong))), props=('C11', 'C05'))
+        else:
+            decided.add(n_)
     # ---- comment = one_line_comment | block_comment
     f = table.get('comment')
     if f is not None and f.ast:
@@ -1307,7 +1319,7 @@ def lexers_check(fns, table):
 _PP_COMMON = ['ws', 'symbol', 'keyword', 'paren', 'white_space', 'compiler_directive', 'compiler_directive_without_resetall', 'source_description',
               'source_description_not_directive', 'comment', 'one_line_comment', 'block_comment', 'string_literal', 'string_literal_impl',
               'escaped_identifier', 'escaped_identifier_impl']
-_PP_MACRO = ['text_macro_definition', 'text_macro_name', 'list_of_formal_arguments', 'formal_argument', 'text_macro_identifier', 'text_macro_identifier_exact',
+_PP_MACRO = ['text_macro_definition', 'text_macro_name', 'list_of_formal_arguments', 'formal_argument', 'text_macro_identifier', 'text_macro_identifier_exact', 'identifier_exact',
              'macro_text', 'default_text', 'identifier', 'simple_identifier', 'simple_identifier_exact', 'simple_identifier_impl', 'escaped_identifier_exact',
              'define_argument', 'define_argument_inner', 'define_argument_str', 'define_argument_paren', 'define_argument_bracket', 'define_argument_brace']
 _PP_USAGE = ['text_macro_usage', 'list_of_actual_arguments', 'actual_argument', 'define_argument', 'define_argument_inner', 'define_argument_str',
